@@ -193,7 +193,7 @@ MessageDecX(b, nfds, strict) ==
                err |-> FieldVal(fs, F_ERR, <<>>), dst |-> FieldVal(fs, F_DST, <<>>), snd |-> FieldVal(fs, F_SND, <<>>),
                ci |-> FieldVal(fs, F_CI, <<>>), sig |-> sig, body |-> body.v],
         unk |-> SelectSeq([k \in 1..Len(fs) |-> FieldCode(fs[k])], LAMBDA c : c > 10),
-        mandatory |-> Mandatory(ty, fs)]
+        mandatory |-> Mandatory(ty, fs), nfd |-> fdsv[1]]
 
 MessageDec(b, nfds) == LET d == MessageDecX(b, nfds, TRUE) IN [ok |-> d.ok, m |-> d.m]
 MessageValid(b, nfds) == MessageDec(b, nfds).ok
